@@ -20,7 +20,8 @@ def gen_plan(rng, tier, config, opts):
             for _ in range(rng.randint(6, 16)):
                 kk = rng.bytes(rng.choice([8, 20, 32])).hex()
                 steps.append(rng.choice(['W_MUL ' + kk, 'W_MUL ' + kk, 'W_MULGEN ' + kk, 'W_SIM ' + kk, 'W_PRE ' + kk,
-                                         'W_MAP m%d' % rng.below(1000), 'W_FPINV ' + kk, 'W_ECDSA', 'RAND', 'W_FAIL 1', 'GETCODE']))
+                                         'W_MAP m%d' % rng.below(1000), 'W_FPINV ' + kk, 'W_ECDSA', 'RAND', 'W_FAIL 1', 'GETCODE',
+                                         'W_ECIES', 'W_HASH %d' % rng.below(1000), 'W_SSS', 'W_PSI', 'W_PSI']))
             steps += ['CLRERR', 'PROBE 1']
         else:
             steps, _, _ = ctxsim.gen_script(rng, maxsel=2, maxwork=6, allow_reinit=rng.chance(0.3))
